@@ -256,3 +256,35 @@ fn located_error_from_parts_contract() {
 	kani::cover!(index == 0 && over.is_some() && e.offset > 0, "reader error located by its override offset");
 	kani::cover!(index > 0 && over.is_some(), "mark wins over the override");
 }
+
+static mut ENC_CALLS: u8 = 0;
+static mut ENC_IS_UTF8: bool = false;
+static mut ENC_PARSER: *mut yaml_parser_t = ptr::null_mut();
+static mut INPUT_CALLS: u8 = 0;
+static mut INPUT_DATA: *mut c_void = ptr::null_mut();
+static mut INPUT_PARSER: *mut yaml_parser_t = ptr::null_mut();
+static mut ENCODING_SET_BEFORE_INPUT: bool = false;
+pub(crate) unsafe fn set_encoding_probe(parser: *mut yaml_parser_t, encoding: unsafe_libyaml::yaml_encoding_t) {
+	unsafe { ENC_CALLS += 1; ENC_PARSER = parser; ENC_IS_UTF8 = matches!(encoding, unsafe_libyaml::yaml_encoding_t::YAML_UTF8_ENCODING); }
+}
+pub(crate) unsafe fn set_input_probe(parser: *mut yaml_parser_t, _handler: unsafe_libyaml::yaml_read_handler_t, data: *mut c_void) {
+	unsafe { INPUT_CALLS += 1; INPUT_PARSER = parser; INPUT_DATA = data; ENCODING_SET_BEFORE_INPUT = ENC_CALLS == 1; }
+}
+/// C04 / C03 (the chunker's offsets): `Parser::new` configures the libyaml parser it created -- the stream encoding is
+/// FIXED to UTF-8 (xt always hands libyaml UTF-8; with libyaml's own detection a UTF-8 BOM is skipped without being
+/// counted in the marks, which shifts every cut offset of the chunker and ends in `String::from_utf8(..).unwrap()`
+/// panicking), exactly once and before the input handler is installed; the handler's data pointer is the read state the
+/// Parser keeps; both calls go to the parser object the Parser keeps.  yaml_parser_initialize is the real one.
+#[kani::proof]
+#[kani::unwind(3)]
+#[kani::stub(unsafe_libyaml::yaml_parser_set_encoding, set_encoding_probe)]
+#[kani::stub(unsafe_libyaml::yaml_parser_set_input, set_input_probe)]
+fn parser_new_configures_libyaml() {
+	let mut p = Parser::new(DropProbeReader);
+	let pp: *mut yaml_parser_t = &mut *p.parser;
+	assert!(unsafe { ENC_CALLS } == 1 && unsafe { ENC_IS_UTF8 }, "the stream encoding must be fixed to UTF-8, once");
+	assert!(unsafe { INPUT_CALLS } == 1 && unsafe { ENCODING_SET_BEFORE_INPUT }, "one input handler, installed after the encoding was fixed");
+	assert!(unsafe { ENC_PARSER } == pp && unsafe { INPUT_PARSER } == pp, "both calls configure the parser object the Parser keeps");
+	assert!(unsafe { INPUT_DATA } == p.read_state.cast::<c_void>(), "libyaml's data pointer is the read state the Parser owns");
+	std::mem::forget(p);
+}
